@@ -22,6 +22,15 @@ def main():
     sh(["git", "-C", "/repo", "worktree", "remove", "--force", wt])
     r = sh(["git", "-C", "/repo", "worktree", "add", "--detach", wt, "HEAD"])
     res = {"seed": name, "property": prop, "tier": tier}
+    prev_path = os.path.join(d, "result_%s.json" % tier)
+    if "--tests" not in sys.argv and os.path.exists(prev_path):
+        try:
+            prev = json.load(open(prev_path))
+            for k in ("tests_tail", "tests_failed", "tests_wall_s"):
+                if k in prev:
+                    res[k] = prev[k]           # keep the record of the full-suite run of an earlier invocation
+        except Exception:
+            pass
     try:
         env = dict(os.environ, PYTHONPATH=wt, MPLBACKEND="Agg")
         demo = os.path.join(d, "demo.py")
